@@ -21,12 +21,15 @@ import (
 // the next Open sweeps it (finding F16).
 //
 // (a) diverged: on every path of StoreLogs / DeleteRange / the rotation
-//     goroutine on which MetaStore.CommitState succeeded, the write lock is not
-//     released before either the state cell is stored (memory caught up) or a
-//     sticky failure mark was stored into a field of the WAL with the lock held.
+//
+//	goroutine on which MetaStore.CommitState succeeded, the write lock is not
+//	released before either the state cell is stored (memory caught up) or a
+//	sticky failure mark was stored into a field of the WAL with the lock held.
+//
 // (b) gate: every field used as such a mark is tested, with the lock held and
-//     not released since, on every path that reaches SegmentWriter.Append or a
-//     transaction body in those roots; only the "not marked" edge may reach them.
+//
+//	not released since, on every path that reaches SegmentWriter.Append or a
+//	transaction body in those roots; only the "not marked" edge may reach them.
 func init() {
 	register(&Rule{ID: "ORD-30", Title: "a committed state change that cannot be completed in memory stops the writer (durable and in-memory state never diverge silently)",
 		Props: []string{"C10", "C04", "C01"}, Floor: 3, Run: runORD30})
